@@ -13,7 +13,8 @@ LEVEL_TEXT = ("Clause-level static rules: ref_store performs a strong memory wri
               "must-test, not a may-test); is_null_ref / get_allocation_sites / get_tags give a definite answer only from the base "
               "interval / environments and answer top / false otherwise; every operation redefines or forgets its result parameter; "
               "the per-variable allocation-site and tag environments are updated whenever a reference/region is written. Ghost-"
-              "variable bookkeeping and offset/size reasoning are NOT decided.")
+              "variable bookkeeping and offset/size reasoning are NOT decided."
+              " Each optional environment (allocation sites, tags) is switched by its own parameter in every operation; disjoint allocation-site sets refute p == q only with a definitely non-null operand.")
 ASSUMPTIONS = ["the authors' documented assumption that a region with reference count zero is allocated outside the analysed code "
                "(runtime warning) is accepted", "base-domain operations are sound (C03)"]
 
